@@ -187,6 +187,7 @@ struct FnCx<'a, 'tcx> {
     tcx: TyCtxt<'tcx>,
     body: &'a Body<'tcx>,
     env: TypingEnv<'tcx>,
+    owner: DefId,
 }
 
 impl<'a, 'tcx> FnCx<'a, 'tcx> {
@@ -307,6 +308,20 @@ impl<'a, 'tcx> FnCx<'a, 'tcx> {
             o.set("method", J::s(tcx.item_name(did).to_string()));
             if let Some(self_ty) = args.types().next() {
                 o.set("self_ty", ty_json(tcx, self_ty));
+                if let ty::Param(_) = self_ty.kind() {
+                    // trait bounds on the receiver type parameter in the caller's environment
+                    let root = tcx.typeck_root_def_id(self.owner);
+                    let mut bs = Vec::new();
+                    for clause in tcx.param_env(root).caller_bounds() {
+                        if let Some(tp) = clause.as_trait_clause() {
+                            let tp = tp.skip_binder();
+                            if tp.self_ty() == self_ty {
+                                bs.push(J::s(def_path(tcx, tp.def_id())));
+                            }
+                        }
+                    }
+                    o.set("self_bounds", J::Arr(bs));
+                }
             }
         }
         if let Some(imp) = tcx.impl_of_assoc(did) {
@@ -777,14 +792,14 @@ fn dump_crate<'tcx>(tcx: TyCtxt<'tcx>) -> J {
             DefKind::Fn | DefKind::AssocFn | DefKind::Closure => {
                 let body = tcx.optimized_mir(d);
                 let env = TypingEnv::post_analysis(tcx, d);
-                let cx = FnCx { tcx, body, env };
+                let cx = FnCx { tcx, body, env, owner: d };
                 let mut o = fn_header(tcx, did);
                 o.set("body", cx.body_json());
                 // promoted bodies
                 let proms = tcx.promoted_mir(d);
                 let mut ps = Vec::new();
                 for pb in proms.iter() {
-                    let pcx = FnCx { tcx, body: pb, env };
+                    let pcx = FnCx { tcx, body: pb, env, owner: d };
                     ps.push(pcx.body_json());
                 }
                 o.set("promoted", J::Arr(ps));
